@@ -1,3 +1,4 @@
+mod alloc;
 mod arena;
 mod enc_arm;
 mod counter;
@@ -24,6 +25,7 @@ fn main() {
         "hist" => hist::run(&a, &mut out),
         "cycles" => cycles::run(&a, &mut out),
         "counter" => counter::run(&a, &mut out),
+        "alloc" => alloc::run(&a, &mut out),
         x => {
             eprintln!("unknown command {x}");
             std::process::exit(2);
